@@ -3,7 +3,9 @@
 Functions under contract:
   emd._cycles_support.get_cycle_stat_from_samples : out[c] = F(vals[{s: cv[s] = c}]) for every c < max(cv)+1, F arbitrary (uninterpreted);
   emd._cycles_support.project_cycles_to_samples   : out[s] = vals[cv[s]] where 0 <= cv[s] < len(vals), NaN elsewhere (contract of C16);
-bounded stand-in only: get_cycle_stat (wrapper through IterateCycles), phase_align, bin_by_phase.
+  emd.cycles.bin_by_phase (vector of values, no weights, given increasing edges) : avg[b] * #{t: bin(t) = b+1} = sum of x over exactly
+                            those samples, and avg[b] is missing (NaN) iff the bin is empty; bin(t) = k means edge[k-1] <= phase[t] < edge[k];
+bounded stand-in only: get_cycle_stat (wrapper through IterateCycles), phase_align, weighted / multi-column bin_by_phase.
 """
 import itertools
 import numpy as np
@@ -14,15 +16,17 @@ from pyvc.verify import Unit
 
 PROPERTY = 'C14'
 LEVEL = 'proof'
-FUNCTIONS = ['emd._cycles_support.get_cycle_stat_from_samples', 'emd._cycles_support.map_cycle_to_samples (inlined)', 'emd._cycles_support.project_cycles_to_samples']
+FUNCTIONS = ['emd._cycles_support.get_cycle_stat_from_samples', 'emd._cycles_support.map_cycle_to_samples (inlined)', 'emd._cycles_support.project_cycles_to_samples',
+             'emd.cycles.bin_by_phase (1-d values, unweighted, variance_metric default)', 'emd.support.ensure_vector (inlined)', 'emd.support.ensure_equal_dims (inlined)']
 ASSUMPTIONS = [
     'floats are mathematical reals with a NaN flag; numpy ints unbounded',
     'assumed numpy contracts (cross-checked natively): where (as a function of the compared label), ==, max, zeros, integer-array gather / assignment',
     'the reducing function is an arbitrary pure function of the gathered vector (uninterpreted F over the reified vector and its length)',
-    'phase_align, bin_by_phase and the get_cycle_stat wrapper (generator-based iteration, scipy interp1d, np.average of possibly empty selections) are NOT under a discharged contract: bounded stand-in only',
+    'bin_by_phase unit: assumed numpy contracts digitize (increasing edges), boolean-mask gather = np.where gather, sum(x[mask]) = indicator sum, count_nonzero(mask) = len(np.where(mask)[0]), repeat, mean with IEEE semantics (mean of an empty selection and sums with a NaN term are NaN, not exceptions; a zero divisor gives inf / nan); the variance outputs are computed but not specified',
+    'phase_align and the get_cycle_stat wrapper (generator-based iteration, scipy interp1d) are NOT under a discharged contract: bounded stand-in only',
 ]
 NOT_COVERED = ['phase_align: linear-in-phase exactness and interpolation-error clause - bounded stand-in only',
-               'bin_by_phase: every non-empty bin filled with its mean - bounded stand-in only',
+               'bin_by_phase with weights, with 2-d values or with default (linspace) edges; its variance outputs - bounded stand-in only',
                'get_cycle_stat wrapper / output modes - bounded stand-in only']
 
 N = z3.Int('N')
@@ -58,11 +62,79 @@ def _post_stat(c, a, kw, r):
     c.oblige('post:stat-is-func-of-exactly-the-labelled-samples', z3.Implies(z3.And(0 <= k, k < r.shape_e[0]), r.elem(k) == c.ghost['spec'](k)), 'post')
 
 
+# ----------------------------------------------------------------------------- bin_by_phase (vector of values, no weights, given edges)
+
+NB = z3.Int('nbins')
+SUMR = npshim.SUMR
+
+
+def _mk_bin(c):
+    ip, IPF = vec('ip', N, 'f')
+    x, XF = vec('x', N, 'f')
+    edges, EF = vec('bin_edges', NB + 1, 'f')
+    i, j = z3.Ints('bi bj')
+    for ax in npshim.sum_axioms():
+        c.assume(ax)
+    c.assume(z3.And(N >= 1, NB >= 1))
+    c.assume(z3.ForAll([i, j], z3.Implies(z3.And(0 <= i, i < j, j <= NB), EF(i) < EF(j)), patterns=[z3.MultiPattern(EF(i), EF(j))]))
+    c.ghost['ieee_empty_mean'] = True
+    # the bin index of every sample: the same np.digitize term the code computes (np.digitize is a function of its arguments)
+    with core.SpecMode():
+        D = npshim.digitize(ip, edges)
+    DF = D.elem(z3.Int('bt')).decl()        # the function symbol behind the digitize result
+    KK, WW, PP = npshim.register_param_where(c, DF, N, 'bins')
+    c.ghost['bins'] = (KK, WW, XF, DF, D)
+    return (ip, x), dict(bin_edges=edges)
+
+
+def _bin_spec(avg, b):
+    """bin b (0-based): filled with the mean of exactly the samples whose bin index is b+1, missing iff there is none"""
+    KK, WW, XF, DF, D = core.C().ghost['bins']
+    k = b + 1
+    cnt = KK(k)
+    tot = SUMR(npshim.reify1(lambda t: z3.If(DF(t) == k, XF(t), z3.RealVal(0)), 'f'), N)      # sum over exactly the samples of the bin
+    isn = avg.nan(b) if avg.nan is not None else z3.BoolVal(False)
+    return z3.And(isn == (cnt == 0), z3.Implies(cnt > 0, avg.elem(b) * z3.ToReal(cnt) == tot))
+
+
+def _loops_bin():
+    bq = z3.Int('lb')
+    return {0: {'inv': [('shape', lambda e: and_(SBool(e.avg.shape_e[0] == NB), SBool(e.var.shape_e[0] == NB), SBool(z3.BoolVal(e.avg.ndim == 1)))),
+                        ('ii', lambda e: and_(1 <= e.ii, e.ii <= NB + 1)),
+                        ('bins-so-far-hold-their-mean', lambda e: SBool(z3.ForAll([bq], z3.Implies(z3.And(0 <= bq, bq < lift(e.ii) - 1), _bin_spec(e.avg, bq)))))]}}
+
+
+def _post_bin(c, a, kw, r):
+    avg, var, centres = r
+    b = z3.Int('pb')
+    c.oblige('post:one-entry-per-bin', z3.And(z3.BoolVal(avg.ndim == 1), avg.shape_e[0] == NB) if avg.ndim == 1 else z3.BoolVal(False), 'post')
+    if avg.ndim == 1:
+        c.oblige('post:every-bin-with-samples-holds-their-mean-and-empty-bins-are-missing', z3.Implies(z3.And(0 <= b, b < NB), _bin_spec(avg, b)), 'post')
+    # what a bin index means (np.digitize contract restated, so that the clause above reads as the property does)
+    KK, WW, XF, DF, D = c.ghost['bins']
+    ip, x = a
+    edges = kw['bin_edges']
+    t = z3.Int('pt')
+    c.oblige('post:bin-index-k-means-edge[k-1]<=phase<edge[k]', z3.Implies(z3.And(0 <= t, t < N, 1 <= DF(t), DF(t) <= NB),
+                                                                        z3.And(edges.elem(DF(t) - 1) <= ip.elem(t), ip.elem(t) < edges.elem(DF(t)))), 'post')
+    c.oblige('post:sample-inside-the-edges-has-a-bin', z3.Implies(z3.And(0 <= t, t < N, edges.elem(z3.IntVal(0)) <= ip.elem(t), ip.elem(t) < edges.elem(NB)),
+                                                                   z3.And(1 <= DF(t), DF(t) <= NB)), 'post')
+
+
+def bin_unit():
+    import emd.cycles as EC
+    u = Unit('bin_by_phase[vector,unweighted]', 'emd/cycles.py', 'bin_by_phase', _mk_bin, _post_bin, loops=_loops_bin(), module=EC,
+             inline=[('emd/support.py', 'ensure_vector', {}), ('emd/support.py', 'ensure_equal_dims', {})])
+    u.drop_names = ('division-by-nonzero',)
+    return u
+
+
 def units(tier):
     import emd._cycles_support as CS
     U = [Unit('get_cycle_stat_from_samples', C16.SUP, 'get_cycle_stat_from_samples', _mk_stat, _post_stat, loops=_loops_stat, module=CS,
               inline=[(C16.SUP, 'map_cycle_to_samples', {})])]
     U += [u for u in C16.units(tier) if u.name == 'project_cycles_to_samples']
+    U.append(bin_unit())
     return U
 
 
